@@ -247,6 +247,11 @@ Definition chk_stored_sum (tol : Q) (o : list Q) : bool := close tol (nth 15 o 0
 Definition chk_avail_le_stored (tol : Q) (o : list Q) : bool := le_tol tol (nth 16 o 0) (nth 15 o 0).
 Definition chk_prod_le_avail (tol : Q) (o : list Q) : bool := le_tol tol (nth 17 o 0) (nth 16 o 0).
 
+(* all six clauses at once (the per-clause checkers are evaluated only for runs on which this one is false) *)
+Definition chk_run (tol : Q) (por area thick rff : Q) (o : list Q) : bool :=
+  chk_volume tol area thick o && chk_vol_rock tol por o && chk_vol_fluid tol por rff o &&
+  chk_stored_sum tol o && chk_avail_le_stored tol o && chk_prod_le_avail tol o.
+
 (* scaling: [mask] says which outputs are multiplied by k (true) and which stay (false) *)
 Definition area_mask : list bool :=
   [true; true; true; false; false; false; false; true; true; true; false; false; false;
